@@ -125,4 +125,14 @@ CHECKS['C11'] = {
             'server; after each sequence the server must be alive, serve a fresh RemoteWorker correctly and must not have disturbed a concurrently running healthy worker.',
     'note': 'Clients that stay connected but silent forever are not modelled; quick tier samples offsets (message boundaries +-1, first 14 bytes, random), thorough enumerates every offset up to 1500.',
 }
+ENGINES.append({'name': 'OS', 'path': 'harness/injcases.py', 'serves_properties': ['C02', 'C04', 'C05', 'C09', 'C12', 'C17', 'C18', 'C19'],
+                'kind_free_text': 'real workers/servers under observation: hang guard, /proc environment-tag process census, per-shard server fixture, importable targets, main-script template'})
+CHECKS['C02'] = {
+    'engine': 'OS', 'level': 'exploration', 'design_ref': 'DESIGN.md 3.5, 4 (C02)',
+    'technique': 'property-based differential testing: generated target/arguments run on thread, process and remote workers and as a direct call (reference), incl. boundary sizes around the pipe buffer and main-script classes',
+    'text': 'Each generated case is executed by the three kinds (constructor or Worker.create, run None/True/False, target None) and compared with the direct call: '
+            'value equality for results, type+args for exceptions, (False, None, None) and no new process for not-run workers; wait() is called without a timeout '
+            'under a 40 s hang guard so the big-result deadlock is a visible outcome.',
+    'note': '== on generated values (no NaN); main-script cases run a real script as a subprocess (a few per run).',
+}
 NOT_APPLICABLE = {}
